@@ -246,28 +246,28 @@ theorem collectArgs_def (T : PTables) (mac : MacroDef) (hd : mac.defaults = [])
   -- '*'
   rw [collectArgs]
   simp only [skippedLangs_cons_of_not _ _ (hl p1), skipSpace_cons_of_not _ _ (hl p1), List.append_nil,
-    List.head?_cons, beq_self_eq_true, if_true, show txtIs (lbr p1) "*" = false by rfl,
+    List.head?_cons, beq_self_eq_true, if_true, show txtIsNV (lbr p1) "*" = false by rfl,
     Bool.false_eq_true, if_false]
   -- 'A'
   rw [collectArgs]
   simp only [skippedLangs_cons_of_not _ _ (hl p1), skipSpace_cons_of_not _ _ (hl p1), List.append_nil,
     List.head?_cons, show ('A' == '*') = false by decide, show ('A' == 'O') = false by decide,
-    beq_self_eq_true, if_true, show txtIs (lbr p1) "}" = false by rfl, Bool.false_eq_true, if_false]
+    beq_self_eq_true, if_true, show txtIsNV (lbr p1) "}" = false by rfl, Bool.false_eq_true, if_false]
   refine (M.bind_ok _ _ _ _ _ a1).trans ?_
   -- 'O', 'O'
   rw [collectArgs]
   simp only [skippedLangs_cons_of_not _ _ (hl p3), skipSpace_cons_of_not _ _ (hl p3), List.append_nil,
     List.head?_cons, show ('O' == '*') = false by decide, beq_self_eq_true, if_true,
-    show txtIs (lbr p3) "[" = false by rfl, Bool.false_eq_true, if_false, hd, List.getElem?_nil]
+    show txtIsNV (lbr p3) "[" = false by rfl, Bool.false_eq_true, if_false, hd, List.getElem?_nil]
   rw [collectArgs]
   simp only [skippedLangs_cons_of_not _ _ (hl p3), skipSpace_cons_of_not _ _ (hl p3), List.append_nil,
     List.head?_cons, show ('O' == '*') = false by decide, beq_self_eq_true, if_true,
-    show txtIs (lbr p3) "[" = false by rfl, Bool.false_eq_true, if_false, hd, List.getElem?_nil]
+    show txtIsNV (lbr p3) "[" = false by rfl, Bool.false_eq_true, if_false, hd, List.getElem?_nil]
   -- 'A'
   rw [collectArgs]
   simp only [skippedLangs_cons_of_not _ _ (hl p3), skipSpace_cons_of_not _ _ (hl p3), List.append_nil,
     List.head?_cons, show ('A' == '*') = false by decide, show ('A' == 'O') = false by decide,
-    beq_self_eq_true, if_true, show txtIs (lbr p3) "}" = false by rfl, Bool.false_eq_true, if_false]
+    beq_self_eq_true, if_true, show txtIsNV (lbr p3) "}" = false by rfl, Bool.false_eq_true, if_false]
   refine (M.bind_ok _ _ _ _ _ a2).trans ?_
   rw [collectArgs]
   rfl
@@ -337,8 +337,8 @@ theorem expandArguments_def (T : PTables) (fuel : Nat) (mac : MacroDef) (hmac : 
   rfl
 
 theorem skipSpaceStopLang_cons_of_not (t : Tok) (ts : Buf) (h : isSpaceTok t = false) :
-    skipSpaceStopLang (t :: ts) = t :: ts := by
-  simp [skipSpaceStopLang, h]
+    skipSpaceStopLangAct (t :: ts) = t :: ts := by
+  simp [skipSpaceStopLangAct, h]
 
 /-- **the definition step of `expandMacro`**: `\\newcommand` followed by `{\name}{body}` stores the
     macro, leaves an Action token at the position of `\\newcommand` and the buffer behind the
@@ -363,7 +363,7 @@ theorem expandMacro_use (T : PTables) (fuel : Nat) (rest : Buf) (tok : Tok) (st 
     (nm : Str) (b : List Tok) (hl : lookupMacro st tok.txt = some (userMacro nm b))
     (hbr : ∀ t ∈ b, argRef t = none) :
     expandMacro T (fuel + 2) rest tok false st
-      = .ok ((mkAction tok.pos :: b.map (restamp tok.pos), skipSpaceStopLang rest), st) := by
+      = .ok ((mkAction tok.pos :: b.map (restamp tok.pos), skipSpaceStopLangAct rest), st) := by
   rw [expandMacro.eq_2]
   refine (M.bind_ok _ _ _ _ _ (rfl : M.get st = _)).trans ?_
   simp only [hl]
@@ -422,7 +422,7 @@ def PiecesOk (T : PTables) (st1 : PState) : List Piece → Prop
   | .tok t :: rest => PlainTok t ∧ PassTok T st1 t (flat rest) ∧ PiecesOk T st1 rest
   | .defn _ _ _ _ _ _ name body :: rest => NameOk st1 name ∧ GoodBody T st1 body ∧ PiecesOk T st1 rest
   | .use _ name br :: rest =>
-    NameOk st1 name ∧ (br = none → skipSpaceStopLang (flat rest) = flat rest) ∧ PiecesOk T st1 rest
+    NameOk st1 name ∧ (br = none → skipSpaceStopLangAct (flat rest) = flat rest) ∧ PiecesOk T st1 rest
 
 /-- the parser state while the document is expanded, relative to the initialised state `st1`:
     declared macros keep their meaning, every other macro is a parameterless user macro with a
@@ -607,8 +607,8 @@ theorem seq_br (T : PTables) (fuel : Nat) (br : Option (Nat × Nat)) (rest : Buf
     simp [brActs, lbr, rbr]
 
 theorem skipSpaceStopLang_br (br : Option (Nat × Nat)) (rest : Buf)
-    (h : br = none → skipSpaceStopLang rest = rest) :
-    skipSpaceStopLang (brToks br ++ rest) = brToks br ++ rest := by
+    (h : br = none → skipSpaceStopLangAct rest = rest) :
+    skipSpaceStopLangAct (brToks br ++ rest) = brToks br ++ rest := by
   cases br with
   | none => simpa [brToks] using h rfl
   | some ab => obtain ⟨a, b⟩ := ab; rfl
@@ -622,7 +622,7 @@ theorem plainTok_restamp (p : Nat) (t : Tok) (h : PlainTok t) : PlainTok (restam
 theorem seq_use_step (T : PTables) (fuel : Nat) (p : Nat) (name : Str) (br : Option (Nat × Nat))
     (rest : Buf) (envStop : Option Str) (out : List Tok) (st1 st : PState)
     (hst : StOk T st1 st) (hn : NameOk st1 name) (ha : noEmptyActive T st1 = true)
-    (hsk : br = none → skipSpaceStopLang rest = rest) :
+    (hsk : br = none → skipSpaceStopLangAct rest = rest) :
     expandSequence T (fuel + (2 + (useBody st p name).length + (brToks br).length))
         (cwTok p name :: (brToks br ++ rest)) envStop out st
       = expandSequence T fuel rest envStop (out ++ mkAction p :: (useBody st p name ++ brActs br))
@@ -1091,7 +1091,7 @@ theorem nameOk_of_cwFacts {T : PTables} {st : PState} {name R : Str} (h : CwFact
   ⟨h.nDef, h.undecl, hi⟩
 
 theorem skip_of_firstNS (toks : List Tok)
-    (h : ∀ t ts, toks = t :: ts → isSpaceTok t = false) : skipSpaceStopLang toks = toks := by
+    (h : ∀ t ts, toks = t :: ts → isSpaceTok t = false) : skipSpaceStopLangAct toks = toks := by
   cases toks with
   | nil => rfl
   | cons t ts => exact skipSpaceStopLang_cons_of_not t ts (h t ts rfl)
